@@ -36,6 +36,8 @@ def parseEv (w : String) : Option Ev :=
       | _, _ => none
     else none
   | ["rret", "err"] => some (.runRet true)
+  | ["rret", "nil"] => some .nop
+  | ["rret2", _] => some .nop
   | ["q", p] =>
     if p == "" then some (.quiet [])
     else ((p.splitOn "+").mapM String.toNat?).map .quiet
